@@ -164,7 +164,7 @@ var wantBOMs = []struct {
 
 // R07.3 / R11.1
 var ruleBOMTable = &core.Rule{ID: "R07.3", Min: 7,
-	Doc: "the BOM table is exactly the five Unicode marks with their charset names, no entry is shadowed by an earlier entry that is its prefix, and the lookup returns the name of the first entry that prefixes the input, else the empty string",
+	Doc: "the BOM table is exactly the five Unicode marks with their charset names, no entry is shadowed by an earlier entry that is its prefix, and the lookup returns the name of the first entry that prefixes the input, else the empty string; a hand-written lookup without a table is judged by the path conditions of its returns (exactly the mark's bytes, length bound exactly len(mark)) and folded for each mark",
 	Run: func(c *core.Ctx, s *core.Sink) {
 		cm := getCharset(c)
 		if cm.bomSwitch {
@@ -463,7 +463,7 @@ var ruleASCIIClass = &core.Rule{ID: "R11.4", Min: 256,
 
 // R11.5
 var ruleTrim = &core.Rule{ID: "R11.5", Min: 2,
-	Doc: "the buffer given to utf8.Valid is the input, shortened at most by a final incomplete rune: every re-slice on the way is control dependent on utf8.FullRune(dropped tail) being false, cuts at a rune start among the last 3 bytes",
+	Doc: "the buffer given to utf8.Valid is the input, shortened at most by a final incomplete rune: every re-slice on the way (also inside byte-slice helpers) is control dependent on utf8.FullRune(dropped tail) being false, cuts at a rune start among the last 3 bytes",
 	Run: func(c *core.Ctx, s *core.Sink) {
 		p := getPlain(c)
 		if p.valid == nil {
